@@ -456,22 +456,31 @@ Proof.
   replace (cofr RO 2) with (cadd' 1c 1c) by (apply c_eq; csimp; ring). ring.
 Qed.
 
+Lemma udd_term_neg (t : R -> R) k :
+  powerRZ (-1) (- Z.of_nat k) * t (z / 2 * cos (PI * IZR (- Z.of_nat k) / (IZR (Z.of_nat n) + 1))) =
+  (-1) ^ k * t (z / 2 * udd_c k).
+Proof.
+  rewrite powerRZ_m1_neg. unfold udd_c. f_equal. f_equal. f_equal. rewrite <- cos_neg. f_equal.
+  rewrite opp_IZR, !IZR_of_nat. field. apply INR_p1_neq.
+Qed.
+Lemma udd_term_pos (t : R -> R) k :
+  powerRZ (-1) (Z.of_nat k) * t (z / 2 * cos (PI * IZR (Z.of_nat k) / (IZR (Z.of_nat n) + 1))) =
+  (-1) ^ k * t (z / 2 * udd_c k).
+Proof. rewrite <- pow_powerRZ, !IZR_of_nat. reflexivity. Qed.
+
 Lemma udd_U_shipped :
   UDD z (Z.of_nat n) = cabs2 RO udd_U / 2.
 Proof.
   unfold UDD. replace (- Z.of_nat n - 1)%Z with (- Z.of_nat (S n))%Z by lia.
   replace (Z.of_nat n + 1)%Z with (Z.of_nat (S n)) by lia.
-  rewrite !sum_range_symm. unfold cabs2. simpl omul. simpl oadd.
-  unfold udd_U. rewrite csumn_re, csumn_im.
-  assert (Hc : forall k, PI * IZR (- Z.of_nat k) / (IZR (Z.of_nat n) + 1) = - (PI * INR k / (INR n + 1))).
-  { intros k. rewrite opp_IZR, !IZR_of_nat. field. apply INR_p1_neq. }
-  assert (Hc' : forall k, PI * IZR (Z.of_nat k) / (IZR (Z.of_nat n) + 1) = PI * INR k / (INR n + 1)).
-  { intros k. rewrite !IZR_of_nat. reflexivity. }
-  f_equal. simpl pow. rewrite !Rmult_1_r. f_equal.
-  - f_equal; apply sumn_ext; intros k _; rewrite powerRZ_m1_neg, <- pow_powerRZ, Hc, Hc', cos_neg;
-      unfold udd_E, udd_c; csimp; reflexivity.
-  - f_equal; apply sumn_ext; intros k _; rewrite powerRZ_m1_neg, <- pow_powerRZ, Hc, Hc', cos_neg;
-      unfold udd_E, udd_c; csimp; reflexivity.
+  rewrite !sum_range_symm.
+  replace (Ropp (IZR 1)) with (-1) by lra.
+  rewrite (sumn_ext (S n) _ (fun k => fst (cadd' (udd_E (S k)) (udd_E k)))).
+  2:{ intros k _. rewrite (udd_term_neg cos), (udd_term_pos cos). unfold udd_E. csimp. ring. }
+  rewrite <- csumn_re. fold udd_U.
+  rewrite (sumn_ext (S n) _ (fun k => snd (cadd' (udd_E (S k)) (udd_E k)))).
+  2:{ intros k _. rewrite (udd_term_neg sin), (udd_term_pos sin). unfold udd_E. csimp. ring. }
+  rewrite <- csumn_im. fold udd_U. unfold cabs2. cbn [oadd omul RO]. f_equal. ring.
 Qed.
 End UDD.
 
